@@ -96,7 +96,7 @@ PROPS["C10"]["level_text"] += (" GLUE (new): calendar of Utility::day/date/dow a
                                "dow_periodic, calendar_anchors (0001-01-01 = day 1 = Saturday, 1752-09-02 Wed → 1752-09-14 Thu = day 639799, …). INVERSE AND SUCCESSOR (new): day_next (the day number steps by exactly one along the documented "
                                "calendar — month ends, leap days of either rule, year ends, the 1752-09-02 → 09-14 switch — and the successor of a valid date is valid), day_date (for EVERY s ≥ 1, "
                                "date(s) is a valid date and day(date(s)) = s: by induction along nextDate every day number is hit, so day and date are mutually inverse bijections), date_succ "
-                               "(date(s+1) = nextDate(date(s)) for every s ≥ 1), dayChecked_only_valid (day(…, check = true) succeeds ONLY on dates of the documented calendar — with dayChecked_accepts: exactly on them), dow_next (the week day advances by one along the calendar, also across the 1752 switch), date_strictMono and day_lt_iff (date is strictly increasing for the lexicographic order of (y,m,d) on all s ≥ 1; day orders the valid dates as the calendar does). Not proved: ParseLine / trim / val<bool> / "
+                               "(date(s+1) = nextDate(date(s)) for every s ≥ 1), dayChecked_only_valid (day(…, check = true) succeeds ONLY on dates of the documented calendar — with dayChecked_accepts: exactly on them), dow_next (the week day advances by one along the calendar, also across the 1752 switch), date_strictMono and day_lt_iff (date is strictly increasing for the lexicographic order of (y,m,d) on all s ≥ 1; day orders the valid dates as the calendar does), fractionalyear_range (for every valid date up to year 199999 the exact rational behind fractionalyear is y + n/den with 0 ≤ n < den). Not proved: ParseLine / trim / val<bool> / "
                                "GeoCoords token dispatch are executable models compared exactly with the implementation, with decided examples but no universally quantified parseLine_spec; "
                                "GeoCoords accessors, alternate zone, representations, readarray/writearray, val<int>, DMS numeric helpers are oracles on the implementation only. Open finding F97: the "
                                "string constructor of GeoCoords does not reduce the longitude to [-180, 180] as its documentation says.")
